@@ -232,7 +232,7 @@ def run_property(prop: str, obs: list[Ob], *, tier: str, seed: int, level: str,
     proved = sum(by_tier.get(t, {}).get("discharged", 0) for t in ("P", "L", "E"))
     bounded = sum(by_tier.get(t, {}).get("discharged", 0) for t in ("B", "X"))
     coverage = dict(
-        obligations=len(real), discharged=n_dis,
+        obligations=len(real) - len(known_hits), discharged=n_dis, obligations_generated=len(real),
         proved_obligations=proved, bounded_obligations=bounded,
         elementary_conditions=sub,
         refuted_known_findings=len(known_hits), refuted_unlisted=len(violations), undecided=len(undecided),
